@@ -198,6 +198,31 @@ def check_case(ctx, case):
                 if single_attr and not case['flag'] and len(set(Rp)) == 1 and len(Rp) > 1:
                     exp = got      # distinct() of equal values: one row
                 msg = expect(got, exp, '.get()')
+                if msg is None and single_attr and not case['flag']:
+                    # the unordered single-column query is DISTINCT (documented): get() must see the distinct result
+                    q0, d0, _ = build_query(case, classes, env, order=False)
+                    try:
+                        got0 = q0.get()
+                        got0 = ('value', c01.norm_row(got0) if got0 is not None else None)
+                    except MultipleObjectsFoundError:
+                        got0 = ('multiple',)
+                    exp0 = ('value', None) if not Rset else (('value', Rset[0]) if len(Rset) == 1 else ('multiple',))
+                    if got0 != exp0:
+                        msg = '%s.get() gave %r, the distinct result is %r so list semantics give %r' % (d0, got0, Rset, exp0)
+                if msg is None:
+                    # a single-column query whose rows all hold the most frequent value: the DISTINCT result has one row
+                    allrows = mirror.all(ent)
+                    if allrows:
+                        cnt_ = collections.Counter(o['n'] for o in allrows)
+                        v = sorted(cnt_.items(), key=lambda kv: (-kv[1], kv[0]))[0][0]
+                        try:
+                            g1 = select('x.n for x in %s if x.n == v' % ent, dict(env), {'v': v}).get()
+                            g1 = ('value', g1)
+                        except MultipleObjectsFoundError:
+                            g1 = ('multiple',)
+                        if g1 != ('value', v):
+                            msg = 'select(x.n for x in %s if x.n == %r).get() gave %r; %d rows hold that value and the distinct result is [%r]' % (
+                                ent, v, g1, cnt_[v], v)
             elif op == 'exists':
                 msg = expect(q.exists(), bool(Rp), '.exists()')
             elif op in ('count', 'len'):
@@ -340,6 +365,22 @@ def check_case(ctx, case):
                     q0, d0, _ = build_query(case, classes, env, order=False)
                     q2 = eval(compile('q0.order_by(lambda x: (%s))' % keys, '<q>', 'eval'), dict(genv, q0=q0, desc=desc))
                     msg = expect(norm(q2[:]), base, ' vs .order_by(lambda x: (%s))' % keys)
+                    if msg is None:
+                        # the same ordering built step by step: every later order_by() becomes the primary key (like
+                        # successive stable sorts), in mixed lambda / attribute forms
+                        q3 = q0
+                        steps = []
+                        chain = [('id', False)] + list(reversed(case['order']))
+                        for i_, (nm, d) in enumerate(chain):
+                            if (a + i_) % 2:
+                                q3 = eval(compile('q3.order_by(lambda x: %s)' % (('desc(x.%s)' if d else 'x.%s') % nm), '<q>', 'eval'),
+                                          dict(genv, q3=q3, desc=desc))
+                                steps.append('.order_by(lambda x: %s)' % (('desc(x.%s)' if d else 'x.%s') % nm))
+                            else:
+                                key = getattr(cls, nm)
+                                q3 = q3.order_by(desc(key) if d else key)
+                                steps.append('.order_by(%s)' % (('desc(%s.%s)' if d else '%s.%s') % (ent, nm)))
+                        msg = expect(norm(q3[:]), base, ' vs the chain %s%s' % (d0, ''.join(steps)))
             elif op == 'random':
                 k = a
                 if k > 0:
